@@ -6,3 +6,77 @@ pub use rtcm_rs::verif_hooks::{Assembler, Parser};
 pub fn is_overflow<T>(r: &Result<T, RtcmError>) -> bool {
     matches!(r, Err(RtcmError::BufferOverflow))
 }
+
+/// Overwrite `len` bits at bit offset `off` (bit 0 = MSB of byte 0) with the low bits of `val`.
+pub fn set_bits(buf: &mut [u8], off: usize, len: usize, val: u64) {
+    let mut i = 0;
+    while i < len {
+        let bit = ((val >> (len - 1 - i)) & 1) as u8;
+        let pos = off + i;
+        let mask = 0x80u8 >> (pos % 8);
+        if bit == 1 {
+            buf[pos / 8] |= mask;
+        } else {
+            buf[pos / 8] &= !mask;
+        }
+        i += 1;
+    }
+}
+pub fn get_bits(buf: &[u8], off: usize, len: usize) -> u64 {
+    let mut v = 0u64;
+    let mut i = 0;
+    while i < len {
+        let pos = off + i;
+        v = (v << 1) | ((buf[pos / 8] >> (7 - pos % 8)) & 1) as u64;
+        i += 1;
+    }
+    v
+}
+
+/// Reference replacement for core::str::from_utf8 under `-Z stubbing` (C17/C20/C02-1029): std's
+/// validator works on usize-aligned blocks with pointer-alignment arithmetic that CBMC's symbolic
+/// execution does not finish. Same contract: Ok(the same bytes as str) iff well-formed UTF-8.
+pub fn from_utf8_ref(v: &[u8]) -> Result<&str, core::str::Utf8Error> {
+    if crate::spec::utf8_valid(v) {
+        Ok(unsafe { core::str::from_utf8_unchecked(v) })
+    } else {
+        // obtain a genuine Utf8Error value without running the real validator on symbolic data
+        Err(utf8_error())
+    }
+}
+fn utf8_error() -> core::str::Utf8Error {
+    // from_utf8_mut is a separate entry point (not stubbed) and the input is one concrete byte
+    let mut bad = [0xFFu8];
+    match core::str::from_utf8_mut(&mut bad) {
+        Err(e) => e,
+        Ok(_) => unreachable!(),
+    }
+}
+
+// ---- long frames with the CRC arithmetic stubbed ------------------------------------------------
+pub static mut DIG_PTR: *const u8 = core::ptr::null();
+pub static mut DIG_LEN: usize = 0;
+pub static mut DIG_CALLS: usize = 0;
+pub static mut CRC_VAL: u32 = 0;
+
+pub fn stub_digest<T: ?Sized + AsRef<[u8]>>(_this: &mut crc_any::CRCu32, data: &T) {
+    unsafe {
+        DIG_CALLS += 1;
+        DIG_PTR = data.as_ref().as_ptr();
+        DIG_LEN = data.as_ref().len();
+    }
+}
+pub fn stub_get_crc(_this: &crc_any::CRCu32) -> u32 {
+    unsafe { CRC_VAL }
+}
+
+/// True when the `-Z stubbing` stubs are in effect (symbolic run); false in a native replay, where
+/// Kani's playback does not apply stubs and the real CRC runs.
+pub fn crc_is_stubbed() -> bool {
+    unsafe {
+        CRC_VAL = 0x123456;
+    }
+    let c = crc_any::CRCu32::crc24lte_a();
+    c.get_crc() == 0x123456
+}
+
